@@ -276,20 +276,17 @@ Qed.
 Lemma fixpoint_resolver_partial_lemma (U : universe) W dq0 scheds S :
   envelope_b U W = true -> resolve U W dq0 scheds = Ok S ->
   (forall j, In j S -> lockable (nth j U dummy_pkg)) ->
-  let UL := lock_universe U dq0 in
-  let member := cand_at U dq0 in
-  let L := lock_world U dq0 S in
   Closed U W (pkgs_of U S) /\
-  L = Lock.lock_of (List.map member S) /\
-  envelope_b U L = true /\
-  (forall j k', In j S -> In k' UL -> LockProofs.admitted UL (Lock.lock_entry_of (member j)) k' -> k' = member j) /\
-  (forall scheds' S', resolve U L dq0 scheds' = Ok S' -> forall j, In j S' <-> In j S).
+  lock_world U dq0 S = Lock.lock_of (List.map (cand_at U dq0) S) /\
+  envelope_b U (lock_world U dq0 S) = true /\
+  (forall j k', In j S -> In k' (lock_universe U dq0) ->
+     LockProofs.admitted (lock_universe U dq0) (Lock.lock_entry_of (cand_at U dq0 j)) k' -> k' = cand_at U dq0 j) /\
+  (forall scheds' S', resolve U (lock_world U dq0 S) dq0 scheds' = Ok S' -> forall j, In j S' <-> In j S).
 Proof.
-  intros HE H HL. cbv zeta. destruct (fixpoint_same_members U W dq0 scheds S HE H HL) as [A B].
-  split; [eapply closed_full_lemma; eassumption|]. split; [reflexivity|]. split; [exact A|]. split; [|exact B].
-  intros j k' Hj Hk' Ha. eapply entry_admits_only_member; try eassumption.
-  - eapply members_lemma; eassumption.
-  - apply HL. exact Hj.
+  intros HE H HL. destruct (fixpoint_same_members U W dq0 scheds S HE H HL) as [A B].
+  split; [exact (closed_full_lemma U W dq0 scheds S HE H)|]. split; [reflexivity|]. split; [exact A|]. split; [|exact B].
+  intros j k' Hj Hk' Ha.
+  exact (entry_admits_only_member U W dq0 j k' HE (proj2 (members_lemma U W dq0 scheds S H) j Hj) (HL j Hj) Hk' Ha).
 Qed.
 
 (* ================= Part 3: the lock need not resolve ===================================== *)
@@ -325,9 +322,10 @@ Fixpoint all_orders {A} (l : list A) : list (list A) :=
 (* C09-F6: a -> b, c; c -> !b.  The conflict entry of c is applied when c is
    expanded, AFTER b was chosen for a; it only keeps b from being chosen again.
    The origin [b c a] is closed (C02), every member answers its own entry, no
-   entry admits anything else — and its lock resolves in NO order of the
-   entries: resolving any of them first expands c (directly or through a) and
-   disqualifies b, or has chosen b in the first loop and then fails on it. *)
+   entry admits anything else — and its lock fails to resolve in the order of
+   the result, in sorted order (the order lock.go writes) and in three more of
+   the six orders of its entries: whenever c is expanded before the request or
+   the dependency that needs b is looked at.  Only [b a c] replays the origin. *)
 Definition U_conflict : universe :=
   [wp "a" "1.0" ["b"; "c"] [] []; wp "b" "1.0" [] [] []; wp "c" "1.0" ["!b"] [] []].
 
@@ -337,19 +335,24 @@ Lemma fixpoint_finds_locked_refuted :
   (forall j, In j S -> lockable (nth j U dummy_pkg)) /\
   (forall j, In j S -> LockProofs.admitted (lock_universe U []) (Lock.lock_entry_of (cand_at U [] j)) (cand_at U [] j)) /\
   lock_world U [] S = ["b=1.0"; "c=1.0"; "a=1.0"] /\
-  Forall (fun L => forall scheds, resolve U L [] scheds = Err) (all_orders (lock_world U [] S)).
+  forall scheds,
+    resolve U (lock_world U [] S) [] scheds = Err /\
+    resolve U ["a=1.0"; "b=1.0"; "c=1.0"] [] scheds = Err /\
+    List.map (fun L => resolve U L [] scheds) (all_orders (lock_world U [] S)) = [Err; Err; Err; Ok S; Err; Err].
 Proof.
   cbv zeta.
   assert (HE : envelope_b U_conflict ["a"] = true) by (vm_compute; reflexivity).
   assert (HR : resolve U_conflict ["a"] [] [] = Ok [1; 2; 0]) by (vm_compute; reflexivity).
-  split; [exact HE|]. split; [exact HR|]. split; [apply (closed_full_lemma _ _ [] []); assumption|].
+  split; [exact HE|]. split; [exact HR|]. split; [exact (closed_full_lemma _ _ [] [] _ HE HR)|].
   split.
   { intros j [<-|[<-|[<-|[]]]]; (split; [|split]); vm_compute; repeat split; discriminate. }
   split.
   { intros j [<-|[<-|[<-|[]]]]; vm_compute; tauto. }
   split; [vm_compute; reflexivity|].
   assert (Hiif : r_iif (new_resolver U_conflict) = []) by (vm_compute; reflexivity).
-  assert (G : Forall (fun L => resolve U_conflict L [] [] = Err) (all_orders (lock_world U_conflict [] [1; 2; 0]))).
-  { vm_compute. repeat constructor. }
-  rewrite Forall_forall in *. intros L HL scheds. rewrite (resolve_sched_irrelevant _ _ _ scheds [] Hiif). apply G. exact HL.
+  intros scheds. split; [|split].
+  - rewrite (resolve_sched_irrelevant _ _ _ scheds [] Hiif). vm_compute. reflexivity.
+  - rewrite (resolve_sched_irrelevant _ _ _ scheds [] Hiif). vm_compute. reflexivity.
+  - rewrite (map_ext _ (fun L => resolve U_conflict L [] [])); [vm_compute; reflexivity|].
+    intros L. apply resolve_sched_irrelevant. exact Hiif.
 Qed.
